@@ -36,6 +36,16 @@ HARNESSES = [
     H("c33_segment_fits_15", 60, "same, |s|=15", "L=15", tiers=("thorough",)),
     H("c33_segment_fits_16", 60, "same, |s|=16", "L=16", tiers=("thorough",)),
     H("c33_segment_fits_17", 60, "same, |s|=17", "L=17", tiers=("thorough",)),
+    H("c33_allocate_cstr_nul_segments", 90, "allocate_cstr of a text with 3 embedded NULs: the "
+      "reservation covers every cell push_pstr writes", "text \"a\\0b\\0c\\0d\", cap 160 "
+      "cells, fill level symbolic", timeout=1500),
+    H("c33_allocate_pstr_nul_segments", 90, "allocate_pstr with adjacent and separated NULs",
+      "text \"ab\\0\\0cd\\0e\", cap 160, fill symbolic", timeout=1500),
+    H("c33_allocate_cstr_plain7", 60, "allocate_cstr of a 7-byte text (extra padding cell case)",
+      "\"abcdefg\", cap 160, fill symbolic", tiers=("thorough",), timeout=1500),
+    Harness(SRC, "heap_c30", "c30_list_builder_fails_cleanly", cost=60, timeout=1500,
+            desc="sized_iter_to_heap_list: reserves 1 + 2*size cells and writes exactly that",
+            bounds="size 1..2 or huge, cap 5, fill symbolic", stubs=(S3,)),
     H("c33_push_cell_grows", 40, "push_cell with the real InnerHeap::grow (alloc/realloc model)",
       "cap=2, len 0..2", stubs=()),
     H("c33_reserve_grows", 40, "reserve(n<=6) with the real grow, possibly twice",
